@@ -319,7 +319,8 @@ def corpus_cases():
 # Defects of the expression evaluator that were repaired in the library (known_findings.json,
 # status "fixed": exprtruth, exprmissing, strcasecmp, numtype, adddate, concatstr, nullarg,
 # condkeys, undefvar, filtertruth, mapmissing, missingcmp, minmaxtypes, sumbool, arrayliteral,
-# boolarith, letmissing, laxargs, and the repaired parts of scalararg and arraypath): their classes
+# boolarith, letmissing, laxargs, accbaremissing, and the repaired parts of scalararg and arraypath):
+# their classes
 # no longer
 # exist in Spec/ExprDomain.lean, so these inputs lie inside D (or the rules reject them and the
 # code must raise too).  They run as ordinary cases on every run, next to the
@@ -549,6 +550,73 @@ REGRESSIONS = [
     ({'$let': {'vars': {'v': '$q'}, 'in': '$$v.n'}}, [{'q': [{'n': 1}, {'p': 2}]}, {'q': []}]),
     ({'$map': {'input': '$x', 'in': '$$this.n'}}, [{'x': [{'n': [{'n': 1}]}, {'n': 2}, {}]}]),
     ({'$ifNull': ['$q.n', 'missing']}, [{'q': [{'p': 1}]}, {'q': 5}, {}]),
+    # accbaremissing (fix 50b60be): a missing bare operand leaves nothing to accumulate; a missing
+    # item of a list operand counts like null whatever the context
+    ({'$sum': '$zz'}, [{}, {'zz': 2}, {'zz': None}]),
+    ({'$avg': '$zz'}, [{}, {'zz': 2}]),
+    ({'$max': '$zz'}, [{}, {'zz': 'x'}]),
+    ({'$min': '$d.zz'}, [{'d': {}}, {}, {'d': {'zz': 1}}]),
+    ({'$sum': '$$REMOVE'}, [{}]),
+    ({'$first': '$zz'}, [{}, {'zz': [1, 2]}, {'zz': []}]),
+    ({'$last': '$zz'}, [{}, {'zz': [1, 2]}]),
+    ({'$add': [{'$sum': '$zz'}, 1]}, [{}, {'zz': [1, 2]}]),
+    ({'$ifNull': [{'$max': '$zz'}, 'nothing']}, [{}, {'zz': 3}]),
+    ({'$sum': {'$add': ['$zz', 1]}}, [{}, {'zz': 1}]),
+    ({'$let': {'vars': {'v': '$zz'}, 'in': {'$sum': '$$v'}}}, [{}, {'zz': [1, 2]}]),
+    ({'$first': ['$a', '$b']}, [{'a': 1, 'b': 2}, {'b': 2}, {}]),
+    ({'$last': ['$a', '$zz']}, [{'a': 1}, {'a': 1, 'zz': 2}]),
+    ({'$first': []}, [{}]),
+    ({'$last': [[1, 2]]}, [{}]),
+    # scalararg, the part repaired by d10f41c: an operator of a fixed arity rejects any other
+    # number of arguments before evaluating them, a bare operand counting as one
+    ({'$eq': '$a'}, [{'a': 1}, {}]),
+    ({'$eq': ['$a']}, [{'a': 1}]),
+    ({'$eq': ['$a', 1, 2]}, [{'a': 1}]),
+    ({'$eq': []}, [{}]),
+    ({'$eq': {'a': 1}}, [{}]),
+    ({'$eq': [{'$divide': [1, 0]}]}, [{}]),
+    ({'$ne': 3}, [{}]),
+    ({'$gt': ['$a']}, [{'a': 1}]),
+    ({'$lte': [1, 2, 3]}, [{}]),
+    ({'$cmp': [1]}, [{}]),
+    ({'$cmp': [1, 2]}, [{}]),
+    ({'$subtract': 5}, [{}]),
+    ({'$subtract': ['$a']}, [{'a': 1}]),
+    ({'$divide': ['$a', 1, 2]}, [{'a': 1}]),
+    ({'$mod': '$a'}, [{'a': 1}]),
+    ({'$pow': []}, [{}]),
+    ({'$log': [1]}, [{}]),
+    ({'$in': [1]}, [{}]),
+    ({'$in': 5}, [{}]),
+    ({'$in': '$l'}, [{'l': [1, [1]]}]),
+    ({'$in': [1, [1], 2]}, [{}]),
+    ({'$split': ['a']}, [{}]),
+    ({'$split': 'a,b'}, [{}]),
+    ({'$arrayElemAt': ['$l']}, [{'l': [1]}]),
+    ({'$arrayElemAt': '$l'}, [{'l': [1]}]),
+    ({'$arrayElemAt': ['$l', 0, 1]}, [{'l': [1]}]),
+    ({'$cond': ['$a', 1]}, [{'a': 1}]),
+    ({'$cond': 5}, [{}]),
+    ({'$cond': '$a'}, [{'a': 1}]),
+    ({'$cond': ['$a', 1, 2, 3]}, [{'a': 1}]),
+    ({'$cond': {'if': '$a'}}, [{'a': 1}]),
+    ({'$ifNull': '$a'}, [{'a': 1}, {}]),
+    ({'$ifNull': {'$literal': [1, 2]}}, [{}]),
+    ({'$setEquals': [[1]]}, [{}]),
+    ({'$setEquals': '$l'}, [{'l': [1]}]),
+    ({'$setEquals': []}, [{}]),
+    ({'$setEquals': ['$l', '$l']}, [{'l': [1, 1]}]),
+    ({'$and': [{'$eq': ['$a']}, False]}, [{'a': 1}]),
+    ({'$cond': [True, 1, {'$eq': '$a'}]}, [{'a': 1}]),
+    ({'$strcasecmp': ['a']}, [{}]),
+    ({'$strcasecmp': 5}, [{}]),
+    ({'$substr': ['abc', 1]}, [{}]),
+    ({'$slice': '$l'}, [{'l': [1]}]),
+    # $toString of a datetime (fix b727c9f): UTC, always three fraction digits
+    ({'$toString': '$t'}, [{'t': _T0}, {'t': gen_expr.DATES[1]}, {'t': gen_expr.DATES[2]}, {'t': gen_expr.DATES[3]},
+                           {'t': gen_expr.DATES[4]}, {'t': gen_expr.DATES[5]}, {'t': gen_expr.DATES[7]}, {'t': None}, {}]),
+    ({'$toString': [gen_expr.DATES[6]]}, [{}]),
+    ({'$concat': [{'$toString': '$t'}, '!']}, [{'t': _T0}]),
 ]
 
 
